@@ -55,7 +55,7 @@ RecState::RecState() {
   }
 }
 
-void RecModelAPI::InitProblemModificationPhase(const FlatModelInfo *) { st()->Log("{\"ev\":\"begin\"}"); }
+void RecModelAPI::InitProblemModificationPhase(const FlatModelInfo *) { st()->Log("{\"ev\":\"begin\"}"); rec_fault("convert"); }
 void RecModelAPI::FinishProblemModificationPhase() { st()->Log("{\"ev\":\"end\"}"); }
 
 void RecModelAPI::AddVariables(const VarArrayDef &v) {
